@@ -283,6 +283,16 @@ def u_cbc_neg(ctx, u):
             bad[len(payload) + 32 + pos] ^= 0x20          # one padding byte differs, the length byte stays
             _cbc_must_fail(ctx, keys, seq, seal(bytes(bad)), 'inconsistent-padding-under-valid-mac', pad=pad, pos=pos)
             ctx.nontrivial('cbc-padbyte', rec, pad, pos)
+    # decrypted content that is nothing but (consistent) padding: the padding runs into, or over, the room of the MAC.  Made
+    # with the write key; every body length of 3..17 blocks, padding counts around body-1 and body-33
+    for nblk in range(3, 18):
+        body = 16 * nblk
+        for p_ in sorted(set(x for x in (body - 1, body - 2, body - 16, body - 17, body - 31, body - 32, body - 33, body - 34) if 0 <= x <= 255)):
+            tail = p_ + 1
+            plain = rng.randbytes(body - tail) + bytes([p_]) * tail if tail <= body else bytes([p_]) * body
+            _cbc_must_fail(ctx, keys, seq, seal(plain), 'all-padding-or-padding-over-mac', body=body, padding_count=p_)
+            ctx.nontrivial('cbc-allpad', body, p_)
+            ctx.stat('cbc_all_padding_records')
     ctx.sample({'kind': 'cbc-neg', 'payload_len': n, 'record_len': len(rec), 'seq': seqv})
     for k in (keys, k2, k3):
         k.free()
